@@ -201,7 +201,7 @@ def run(ctx):
     # ------------------------------------------------ (i) exception escape
     seen = {}
     for nm, node in roots:
-        for s, chain in E.from_call(main, node, classes={"explicit", "absent", "assert"}):
+        for s, chain in E.from_call(main, node, classes={"explicit", "absent", "assert", "fs"}):
             seen.setdefault(s.key, (s, chain, nm))
     n_acc = 0
     for key, (s, chain, nm) in sorted(seen.items(), key=lambda x: (x[1][0].fn.file, x[1][0].fn.nodes[x[1][0].node]["line"])):
@@ -227,7 +227,7 @@ def run(ctx):
         t = P.fns[t_usr]
         n_thr += 1
         ctx.use(t)
-        esc = E.from_root(t, classes={"explicit", "absent", "assert"})
+        esc = E.from_root(t, classes={"explicit", "absent", "assert", "fs"})
         ctx.check(not esc, "tick-helper-thread-cannot-throw:" + short(creator), "E-ESCAPE", t.loc(),
                   "no missing-file / absent-key / explicit throw escapes the helper thread started in " + creator.pq,
                   "an exception can escape the helper thread started in %s (std::terminate in the middle of a tick): %s" % (
